@@ -206,6 +206,18 @@ Theorem monitor_c06_final_on_model : forall cfg t0 evs,
 Proof. exact monitor_c06_final_on_model. Qed.
 Print Assumptions monitor_c06_final_on_model.
 
+(* e_sync (position 2): an "execute" answer names the task the post-state assigns to the calling worker, uncompleted,
+   with the action the dump shows; rests on DN: an uncompleted task that lists operations has an action *)
+Theorem uncompleted_task_has_action : forall cfg t0 evs, DN (fst (run (init cfg t0) evs)).
+Proof. exact DN_run. Qed.
+Print Assumptions uncompleted_task_has_action.
+
+Theorem monitor_sync_on_model : forall cfg t0 evs,
+  selectors_in_range (init cfg t0) evs -> fresh_calls [] evs -> bg_scripts_ok evs ->
+  panicked (snd (run (init cfg t0) evs)) \/ trace_sub [2%nat] cfg t0 (model_trace cfg t0 evs) = true.
+Proof. exact monitor_sync_on_model. Qed.
+Print Assumptions monitor_sync_on_model.
+
 (* all components proved so far, in one statement; sel_proved names their positions in p_components *)
 Theorem monitor_components_on_model : forall cfg t0 evs,
   selectors_in_range (init cfg t0) evs -> fresh_calls [] evs -> bg_scripts_ok evs ->
